@@ -3,6 +3,7 @@ import LentilVerif.Lemmas.Propagate
 import LentilVerif.Props.C02
 import LentilVerif.Lemmas.FftComplex
 import LentilVerif.Model.Plane
+import LentilVerif.Gen.Mesh
 import Mathlib.Tactic.FieldSimp
 import Mathlib.Tactic.Linarith
 import Mathlib.Analysis.Real.Sqrt
@@ -345,6 +346,34 @@ theorem fit_tilt_total_unchanged (h1 : (RealLike.ofInt 1 : R) = 1) (s0 s1 : Int)
   unfold fitTiltOpd; rw [fitSubtract_eq h1]
   simp only [tiltRamp, fitRecordXY, Gen.fitRecord]; ring
 
+/-- **The call `fit_tilt()` leaves OPD + ramp of what it recorded unchanged in BOTH of its branches**: where the generated early-return
+test holds (no basis: `shape == ()` / `None`; or a scalar / one-sample OPD) nothing is subtracted and nothing recorded, otherwise
+`fit_tilt_total_unchanged` -/
+theorem fit_tilt_call_total_unchanged (h1 : (RealLike.ofInt 1 : R) = 1) (se sn : Bool) (n s0 s1 : Int) (px0 px1 : R)
+    (mask opd : Int → Int → R) (t : Int → R) (i j : Int) :
+    (fitTiltCall se sn n s0 s1 px0 px1 mask opd t).1 i j +
+      (match (fitTiltCall se sn n s0 s1 px0 px1 mask opd t).2 with
+       | some xy => tiltRamp s0 s1 px0 px1 mask xy.1 xy.2 i j
+       | none => 0) = opd i j := by
+  unfold fitTiltCall
+  by_cases h : Gen.fitTiltSkips (Gen.pttVectorNone se sn) n = true
+  · rw [if_pos h]; simp
+  · rw [if_neg h]; exact fit_tilt_total_unchanged h1 s0 s1 px0 px1 mask opd t i j
+
+/-- **When nothing is fitted**: exactly when the plane has no shape (`()` or `None`: no basis) or its OPD has a single sample; then the
+OPD is handed back as it was -/
+theorem fit_tilt_call_skips_iff (se sn : Bool) (n s0 s1 : Int) (px0 px1 : R) (mask opd : Int → Int → R) (t : Int → R) :
+    ((fitTiltCall se sn n s0 s1 px0 px1 mask opd t).2 = none ↔ (se = true ∨ sn = true ∨ n = 1)) ∧
+    ((fitTiltCall se sn n s0 s1 px0 px1 mask opd t).2 = none → (fitTiltCall se sn n s0 s1 px0 px1 mask opd t).1 = opd) := by
+  unfold fitTiltCall
+  by_cases h : Gen.fitTiltSkips (Gen.pttVectorNone se sn) n = true
+  · rw [if_pos h]
+    refine ⟨⟨fun _ => ?_, fun _ => rfl⟩, fun _ => rfl⟩
+    simpa [Gen.fitTiltSkips, Gen.pttVectorNone, or_assoc] using h
+  · rw [if_neg h]
+    refine ⟨⟨fun h' => (by simp at h'), fun h' => ?_⟩, fun h' => (by simp at h')⟩
+    exact absurd (by simpa [Gen.fitTiltSkips, Gen.pttVectorNone, or_assoc] using h') h
+
 /-- the generated rows subtracted for a segment lie inside that segment's own block of the stacked basis, and skip its
 piston row; the stride handed to `multiply` starts at the segment index and steps by the number of segments -/
 theorem fit_rows_wiring (seg n size : Int) :
@@ -352,6 +381,26 @@ theorem fit_rows_wiring (seg n size : Int) :
     Gen.fitSegLstsqRows seg = Gen.pttSegRows seg ∧ 0 < Gen.fitSubRows.1 ∧ Gen.tiltStride n size = (n, size) := by
   refine ⟨by simp only [Gen.pttSegRows, Gen.fitSegSubRows]; omega, by simp only [Gen.pttSegRows, Gen.fitSegSubRows]; omega,
     rfl, by decide, rfl⟩
+
+/-- **The mesh under `ptt_vector` is the regenerated `helper.mesh`.** `Plane.ptt_vector` calls `lentil.helper.mesh(self.shape)`
+(defaults `shift=(0, 0)`, `angle=0`; `cos 0 = 1`, `sin 0 = 0`): the generated per-axis coordinate `Gen.meshCoord n · 0`
+rotated by the generated `Gen.meshRot · · 1 0` is the centred index `cc n ·` = index minus `floor(n/2)` that `pttBasis`,
+`tiltRamp` and `phasorField` are written with. A change of the centring in `helper.mesh` changes `Gen.meshCoord` and this
+proof stops checking. -/
+theorem ptt_mesh_is_generated (hcast : ∀ n : Int, (RealLike.ofInt n : R) = (n : R)) (s0 s1 i j : Int) :
+    Gen.meshRot (Gen.meshCoord s0 i (0 : R)) (Gen.meshCoord s1 j (0 : R)) 1 0
+      = ((RealLike.ofInt (cc s0 i) : R), (RealLike.ofInt (cc s1 j) : R)) := by
+  simp [Gen.meshRot, Gen.meshCoord, cc, hcast]
+
+/-- `ptt_vector` over generated definitions only: the generated basis row (`Gen.pttRow`) at the generated mesh coordinates
+(`Gen.meshRot (Gen.meshCoord …) …`), times the mask -/
+theorem pttBasis_over_generated_mesh (hcast : ∀ n : Int, (RealLike.ofInt n : R) = (n : R)) (s0 s1 : Int) (px0 px1 : R)
+    (mask : Int → Int → R) (k i j : Int) :
+    pttBasis s0 s1 px0 px1 mask k i j =
+      tripleGet (Gen.pttRow (RealLike.ofInt 1)
+        (Gen.meshRot (Gen.meshCoord s0 i (0 : R)) (Gen.meshCoord s1 j (0 : R)) 1 0).1
+        (Gen.meshRot (Gen.meshCoord s0 i (0 : R)) (Gen.meshCoord s1 j (0 : R)) 1 0).2 px0 px1) k * mask i j := by
+  rw [ptt_mesh_is_generated hcast]; rfl
 
 /-- segmented planes: on a pixel of segment `s` (binary, pairwise disjoint masks) the new OPD plus the ramp of that
 segment's own recorded tilt is the old OPD -/
